@@ -58,6 +58,14 @@ QutipOK == (Rec.op = "qutip" /\ Has("mat")) =>
     \A a \in 0..Dim(Rec.n) - 1 : \A b \in 0..Dim(Rec.n) - 1 :
         LET m == Rec.mat[a + 1][b + 1] IN m[3] <= E /\ GS(2 ^ (E - m[3]), <<m[1], m[2]>>) = M[a][b]
 \* operands are never modified
+\* constants and casts: pauli_identity(n) = 1 * I, pauli_zero(n) = the zero operator, as_monomial / as_polynomial /
+\* as_list keep the denotation (and the type they name)
+ConstOK == (Rec.op = "const" /\ Done) =>
+    /\ DenEq(R, IF Rec.name = "identity" THEN <<[p |-> Id(Rec.n), c |-> <<1, 0>>, e |-> 0]>> ELSE <<>>, E)
+    /\ Rec.ret.t = "Q"
+CastOK == (Rec.op = "cast" /\ Done) =>
+    /\ IF IsList(Rec.ret) THEN ListEq(R, X) ELSE DenEq(R, X, E)
+    /\ Rec.ret.t = (CASE Rec.to = "as_monomial" -> "M" [] Rec.to = "as_polynomial" -> "Q" [] OTHER -> "L")
 FrameOK == Done => (Has("x1") => Rec.x1 = Rec.x) /\ (Has("y1") => Rec.y1 = Rec.y)
 \* unsupported combinations are refused explicitly (NotImplementedError), never answered wrongly
 RefuseOK == Has("refused") => Rec.refused = "NotImplementedError" /\ Rec.expect_refuse = TRUE
